@@ -68,3 +68,6 @@ func VerifHandlerSyncManager(h *Handler) *SyncManager { return h.chain.syncm }
 // manager (the harness passes a memoising decorator of the very same implementation; the scheme's digest
 // function and VerifyBeacon remain the repository's).
 func VerifSetSyncThresholdScheme(h *Handler, ts sign.ThresholdScheme) { h.chain.syncm.scheme.ThresholdScheme = ts }
+
+// VerifSetSyncManagerThresholdScheme: see VerifSetSyncThresholdScheme.
+func VerifSetSyncManagerThresholdScheme(s *SyncManager, ts sign.ThresholdScheme) { s.scheme.ThresholdScheme = ts }
